@@ -14,6 +14,16 @@ BASELINE_OFF = (
 
 # id -> (level, technique, level text, level note, design ref)
 T = {
+    "C01": (
+        "exploration",
+        "exhaustive enumeration of image geometries x every voxel incl. halo x intra-voxel offsets, closed-form affine reference model",
+        "All space_dims, every shape up to the bound (single-voxel axes included), dimension patterns spanning 1e-4..1e4, three origins "
+        "(one 1e6 voxel sizes away), four payload layouts and both constructor forms; for each image every voxel of the image plus a halo "
+        "of 2 and a lattice of interior offsets is pushed through coordinate()/voxel() in batch, single, list, tuple and typed-point forms "
+        "and compared with the closed-form model.",
+        "Trusted: the axis convention written in props/c01.py; float64 rounding bound 8 eps x magnitude. Points within 1/8 voxel of a voxel boundary are outside the alphabet.",
+        "DESIGN.md §3 C01",
+    ),
     "C06": (
         "exploration",
         "exhaustive enumeration of grid shapes x complete impulse bases through the real FV operators, explicit-loop reference operators",
